@@ -247,7 +247,7 @@ def random_world(rng):
         elif y < 0.16:
             certs[n]['kl'] = 'none'
         elif y < 0.20:
-            certs[n]['sig'] = rng.choice(['hmac', 'unknownsig'])
+            certs[n]['sig'] = rng.choice(['hmac', 'unknownsig', 'hmacpub', 'digestkl', 'wrongtype'])
     # a second certificate of the key name of C1 / C2 (other issuer component): forged, or not retrievable
     twin = {}
     for base in ('C1', 'C2'):
@@ -271,7 +271,7 @@ def random_world(rng):
         elif y < 0.18:
             pkts[p] = {'kl': 'none', 'sig': rng.choice(['digest', pkts[p]['sig']])}
         elif y < 0.24:
-            pkts[p]['sig'] = rng.choice(['hmac', 'unknownsig'])     # names the right certificate, unverifiable signature type
+            pkts[p]['sig'] = rng.choice(['hmac', 'unknownsig', 'hmacpub', 'digestkl', 'wrongtype'])   # right certificate, no valid signature
         elif pkts[p]['kl'] + 'b' in twin and y < 0.5:
             pkts[p]['kl'] += 'b'                  # signed by the same key, names the other certificate of that key name
     rts = {'two': ['root', 'oproot'], 'twin': ['root', 'root2']}.get(sch, ['root'])
@@ -411,7 +411,8 @@ def stage_a(ctx):
     from concurrent.futures import ThreadPoolExecutor
     workers = ctx.pick(4, 8)
     if ctx.quick:
-        big = [('depth<=3, 2 validations', consts(INSTS2, 2, 'W3'), INVS, [], False, True),
+        big = [('depth<=3, 1 validation', consts(INSTS2, 1, 'W3'), INVS, [], False, True),
+               ('depth<=2, 2 validations', consts(INSTS2, 2, 'W2'), INVS, [], False, True),
                ('orders, 2 validations (action coverage)', consts(INSTS2, 2, 'WOrd'), INVS, [], True, True)]
     else:
         big = [('depth<=4, 3 validations', consts(INSTS2, 3, 'W4'), INVS, [], True, True)]
@@ -421,7 +422,7 @@ def stage_a(ctx):
     # schemas with two roots of trust: an anchor matching only one of them is refused, one matching both is accepted
     big.append(('two roots of trust', consts(INSTS2, 1, 'W2R', anchors='MCAnchors2'), INVS, [], False, False))
     # termination (liveness) on a smaller configuration
-    big.append(('liveness depth<=%d, 2 validations' % ctx.pick(2, 3), consts(INSTS2, 2, ctx.pick('W2', 'W3'), anchors='MCAnchorsGood'),
+    big.append(('liveness %s, 2 validations' % ctx.pick('selected worlds', 'depth<=3'), consts(INSTS2, 2, ctx.pick('WOrd', 'W3'), anchors='MCAnchorsGood'),
                 ['TypeOK'], ['Terminates'], False, True))
     # the declarative ChainExists equals the walk on every world (no instances: initial states only)
     big.append(('ChainDefsAgree', consts([], 0, 'W4'), ['ChainDefsAgree'], [], False, False))
@@ -519,7 +520,7 @@ def run(ctx):
             # every world (depth, deviation, link) x every packet, one instance anchored at RA: all paths
             ('links', consts(['v1'], 1, ctx.pick('W3', 'W4'), unk, has, anchors='MCAnchorsGood'), kts, None),
             # ... and with both instances, good and bad anchors
-            ('main', consts(INSTS2, ctx.pick(1, 2), ctx.pick('W3', 'W4'), unk, has), kts, ctx.pick(120, 8000)),
+            ('main', consts(INSTS2, ctx.pick(1, 2), ctx.pick('W2', 'W4'), unk, has), kts, ctx.pick(120, 8000)),
             # orders / interleavings of up to 3 validations by two instances on a few worlds
             ('orders', consts(INSTS2, ctx.pick(2, 3), 'WOrd', unk, has, anchors='MCAnchorsGood'), ['ec'], ctx.pick(100, 5000)),
             # fetch fault, Heal, then the same / another packet of the chain again, on the same and on the other instance
